@@ -708,6 +708,27 @@ def run_R01_9(model, col, G, vm):
     want = {(True, True): "TrueBlock", (True, False): "FalseBlock", (False, None): "TrueBlock"}
     col.check(not bad and all(seen.get(k) == v for k, v in want.items()), "R01.9", f"{VM}::__Execute BRANCH arm", "true block iff the predicate's value is truthy; unconditional branches take the true block",
               (bad[0] if bad else f"targets per (has predicate, predicate value): {seen}") + "; expected the predicate value itself to choose (a float predicate between 0 and 1 is true)", VM, arm.case)
+    # (a') block references are unique within one function only: the table a branch target is looked up in is built for the
+    # function being executed (a fresh dict filled from its blocks, or an entry of a cache that is keyed by the function)
+    fpar = vm.execute.args.args[1].arg if len(vm.execute.args.args) > 1 else "function"
+    tables = set()
+    for b in arm.body:
+        for n in ast.walk(b):
+            if isinstance(n, ast.Subscript) and isinstance(n.value, ast.Name) and "Block" in unparse(n.slice) and isinstance(n.ctx, ast.Load):
+                tables.add(n.value.id)
+            # (the target block may be held in a local first: `currentInstruction = blockOffsets[target.Reference]`)
+            if isinstance(n, ast.Assign) and len(n.targets) == 1 and isinstance(n.targets[0], ast.Name) and n.targets[0].id == "currentInstruction":
+                for x in ast.walk(n.value):
+                    if isinstance(x, ast.Subscript) and isinstance(x.value, ast.Name) and x.value.id != "localScope":
+                        tables.add(x.value.id)
+    col.floor("R01.9", "block-offset tables read by the BRANCH arm", len(tables), 1)
+    for tname in sorted(tables):
+        binds = [n for st in vm.prologue for n in ast.walk(st) if isinstance(n, ast.Assign) and any(isinstance(t, ast.Name) and t.id == tname for t in n.targets)]
+        shared = [b_ for b_ in binds if not (isinstance(b_.value, (ast.Dict, ast.DictComp)) or (isinstance(b_.value, ast.Call) and isinstance(b_.value.func, ast.Name) and b_.value.func.id == "dict")
+                                            or any(isinstance(x, ast.Name) and x.id == fpar for x in ast.walk(b_.value)))]
+        col.check(bool(binds) and not shared, "R01.9", f"{VM}::__Execute branch targets of `{tname}`", "the block-offset table is built for the executing function",
+                  (f"`{' '.join(unparse(shared[0]).split())[:60]}`" if shared else f"`{tname}` is not bound in the prologue") + ": the table is not this function's own - block references repeat "
+                  "from function to function, so a branch lands at the offset another function's block has", VM, shared[0] if shared else arm.case)
     # (b) integer spellings
     lx = G.lexer
     conv = {}
@@ -757,6 +778,10 @@ def run(model, col, tier):
     run_R01_1(model, col, G, vm)
     run_R01_2(model, col, G)
     lowering.run_templates(model, col, G, "R01.3")
+    # the templates are statements about the blocks as emitted: nothing takes a block out of a function or moves it afterwards
+    from .c14 import check_block_list as _cbl13
+
+    _cbl13(model, col, "R01.3")
     lowering.check_scope_tables(model, col, "R01.8")
     run_R01_4(model, col, vm)
     run_R01_5(model, col, vm)
